@@ -62,6 +62,12 @@ func c14(c *Ctx) {
 	}
 	nameEq, nameNe := nameEdgesIn(loop)
 
+	c.R.Rule("R14.7", "the revision lists hand every listed revision to the reconciler", 3,
+		"a revision the list accessor hides (terminating, inactive, …) is not deactivated, not counted for the highest number and not garbage collected: two revisions stay Active, numbers repeat")
+	for _, tn := range []string{"ProviderRevisionList", "ConfigurationRevisionList", "FunctionRevisionList"} {
+		c.projectionComplete(c.P.Method("apis/pkg/v1", tn, "GetRevisions"), tn+".GetRevisions is complete")
+	}
+
 	c.R.Rule("R14.6", "revisions are written under the optimistic lock of the listed copy", 1,
 		"the package reconciler decides from a List that may be stale; only a write that carries the listed resourceVersion is rejected when the revision changed meanwhile - an applicator that re-reads and overwrites activates a revision next to one that was activated since")
 	if ctor := c.fn("internal/controller/pkg/manager", "NewReconciler"); ctor != nil {
